@@ -23,9 +23,11 @@
     a subscriber may block in Close() until its in-flight message is settled, or for ever).
 
     Scope: every handler that was added has been started (RunHandlers is C10's); AddHandler /
-    RunHandlers / Handler.Stop during or after Close are not modelled.  handlersLock is held by
-    Close for its whole body and contended only by code outside this scope, so it is folded
-    into closedLock.
+    what RunHandlers starts and Handler.Stop during or after Close are not modelled (C10).  Both
+    locks of Close are modelled: closedLock, then handlersLock, both held for its whole body;
+    handlersLock is also taken by RunHandlers calls ([rp], any number, any time).  The handler
+    goroutine's short section under handlersLock after handlersWg.Done (delete from r.handlers)
+    holds no other lock and requests none; it is folded into that step.
 
     Variant flags (constant during a run):
       [fix5]  D5 repair: wait for the loops first, then lock and wait for the running handlers
@@ -92,12 +94,19 @@ Inductive mpc :=
 Inductive cpc :=
 | CNone
 | CWant                   (* before closedLock.Lock() *)
-| CLocked                 (* holds closedLock (and handlersLock), before [if r.closed] *)
+| CHWant                  (* holds closedLock, before handlersLock.Lock() *)
+| CLocked                 (* holds closedLock and handlersLock, before [if r.closed] *)
 | CSignal                 (* r.closed = true, before close(closingInProgressCh) *)
 | CWait                   (* in waitForHandlers: select {waiters done | time.After} *)
 | CClosedCh (r : res)     (* result decided, before the deferred close(closedCh) *)
 | CUnlock (r : res)       (* before the deferred unlocks *)
 | CRet (r : res).
+
+(** a RunHandlers call, as far as the locks are concerned (what it starts is C10's): it takes
+    handlersLock for its whole body.  [rh_isclosed] is the variant in which it also asks
+    IsClosed() - i.e. takes closedLock - while it holds handlersLock. *)
+Inductive rhpc := RHNone | RHWant | RHLocked | RHCWant | RHChecked | RHDone.
+Inductive hlowner := HOCloser (c : cid) | HORh (r : nat).
 
 Inductive w1pc := W1None | W1Wait | W1Done.
 Inductive w2pc := W2None | W2Pre | W2Want | W2Locked | W2Unlock | W2Done.
@@ -113,7 +122,10 @@ Record state := ST {
   unstarted : nat;                 (* handlers that were added (handlersWg.Add(1) in AddHandler) but never started with
                                       RunHandlers, and that handlersWg still counts *)
   (* router *)
+  rh_isclosed : bool;              (* variant (not the code): RunHandlers calls IsClosed() under handlersLock *)
   closedLock : option cid;
+  handlersLock : option hlowner;
+  rp : nat -> rhpc;                (* RunHandlers calls *)
   closed : bool;
   closingCh : bool;                (* closingInProgressCh is closed *)
   closedCh : bool;
@@ -145,7 +157,7 @@ Record state := ST {
 }.
 
 #[export] Instance eta_state : Settable _ := settable! ST
-  <nh; honour; fix5; fix6; fix12; fix16; unstarted; closedLock; closed; closingCh; closedCh; close_res; handlersWg;
+  <nh; honour; fix5; fix6; fix12; fix16; unstarted; rh_isclosed; closedLock; handlersLock; rp; closed; closingCh; closedCh; close_res; handlersWg;
    runningWg; runningLock; w1; w2; run; ctx_done; early_cancel; lp; hc; pp; sub_open; sub_closing; dec_closing;
    sub_closes; pub_closes; out_closed; hstop; mp; nextm; cp; panicked>.
 
@@ -157,10 +169,12 @@ Inductive label :=
 | LChanClose (h : hid)       (* the subscriber closes its channel *)
 | LFinish (m : mid)          (* the handler function returns *)
 | LTimeout (c : cid)         (* time.After(CloseTimeout) fires *)
+| LRhCall (r : nat)          (* somebody calls RunHandlers (Run itself at start, or the user after AddHandler) *)
 | LSubCloseRet (h : hid)     (* the subscriber's Close() returns to handleClose *)
 (* the code *)
 | LClose (c : cid)           (* next step of Close call c *)
 | LWaitDone (c : cid)        (* select: all waiters done *)
+| LRh (r : nat)              (* next step of RunHandlers call r *)
 | LW1                        (* next step of the handlersWg waiter *)
 | LW2                        (* next step of the runningHandlersWg waiter *)
 | LRun                       (* next step of Run *)
@@ -183,7 +197,7 @@ Definition in_progress (p : mpc) : bool :=
     router that was never run): handlersWg counts them, no goroutine stands for them *)
 Definition init_u (n u : nat) (hon : hid -> bool) (f5 f6 f12 f16 : bool) : state :=
   let live := fun h => Nat.ltb h n in
-  ST n hon f5 f6 f12 f16 u None false false false None (n + u) 0 None W1None W2None RWaitClosing false false
+  ST n hon f5 f6 f12 f16 u false None None (fun _ => RHNone) false false false None (n + u) 0 None W1None W2None RWaitClosing false false
      (fun h => if live h then LRecv else LNone)
      (fun h => if live h then HCSelect else HCNone)
      (fun h => if live h then PRecv else PNone)
@@ -192,6 +206,9 @@ Definition init_u (n u : nat) (hon : hid -> bool) (f5 f6 f12 f16 : bool) : state
 
 (** every added handler has been started (and the repair of D16 is in place) *)
 Definition init (n : nat) (hon : hid -> bool) (f5 f6 f12 : bool) : state := init_u n 0 hon f5 f6 f12 true.
+(** the variant in which RunHandlers asks IsClosed() while it holds handlersLock *)
+Definition init_rh_isclosed (n : nat) (hon : hid -> bool) : state :=
+  init_u n 0 hon true true true true <| rh_isclosed := true |>.
 
 (** the handler's subscription context is done *)
 Definition hctx_done (s : state) (h : hid) : bool := ctx_done s || hstop s h.
@@ -237,7 +254,12 @@ Definition step (s : state) (l : label) : option state :=
       match cp s c with
       | CWant =>
           match closedLock s with
-          | None => Some (s <| cp := upd (cp s) c CLocked |> <| closedLock := Some c |>)
+          | None => Some (s <| cp := upd (cp s) c CHWant |> <| closedLock := Some c |>)
+          | Some _ => None
+          end
+      | CHWant =>
+          match handlersLock s with
+          | None => Some (s <| cp := upd (cp s) c CLocked |> <| handlersLock := Some (HOCloser c) |>)
           | Some _ => None
           end
       | CLocked =>
@@ -259,7 +281,30 @@ Definition step (s : state) (l : label) : option state :=
           Some (s <| cp := upd (cp s) c (CUnlock r) |> <| closedCh := true |>
                   <| panicked := panicked s || closedCh s |>)
       | CUnlock r =>
-          Some (s <| cp := upd (cp s) c (CRet r) |> <| closedLock := None |>)
+          Some (s <| cp := upd (cp s) c (CRet r) |> <| closedLock := None |> <| handlersLock := None |>)
+      | _ => None
+      end
+  | LRhCall r =>
+      match rp s r with
+      | RHNone => Some (s <| rp := upd (rp s) r RHWant |>)
+      | _ => None
+      end
+  | LRh r =>
+      match rp s r with
+      | RHWant =>
+          match handlersLock s with
+          | None => Some (s <| rp := upd (rp s) r RHLocked |> <| handlersLock := Some (HORh r) |>)
+          | Some _ => None
+          end
+      | RHLocked =>
+          if rh_isclosed s then Some (s <| rp := upd (rp s) r RHCWant |>)
+          else Some (s <| rp := upd (rp s) r RHDone |> <| handlersLock := None |>)
+      | RHCWant =>                       (* IsClosed(): closedLock.Lock(); read; Unlock() *)
+          match closedLock s with
+          | None => Some (s <| rp := upd (rp s) r RHChecked |>)
+          | Some _ => None
+          end
+      | RHChecked => Some (s <| rp := upd (rp s) r RHDone |> <| handlersLock := None |>)
       | _ => None
       end
   | LWaitDone c =>
@@ -422,7 +467,7 @@ Definition quiescent_b (s : state) : bool :=
     channel after Close() / after its context ended (subscriber contract, assumed). *)
 Definition sys_labels (s : state) (ncl : nat) : list label :=
   [LW1; LW2; LRun] ++
-  flat_map (fun c => [LClose c; LWaitDone c]) (seq 0 ncl) ++
+  flat_map (fun c => [LClose c; LWaitDone c; LRh c]) (seq 0 ncl) ++
   flat_map (fun h => [LLoop h; LDeliver h; LPump h; LPumpDropCtx h; LPumpDropClosing h; LHcClosing h; LHcCtx h; LHc h; LChanClose h]) (seq 0 (nh s)) ++
   map LMsg (seq 0 (nextm s)).
 
